@@ -370,6 +370,56 @@ func harnessC07same() {
 	vDone()
 }
 
+// harnessC07twoDials: two IDs accepted on the plugin, then dialled from the host by two goroutines at once (two
+// connections being set up in one process): happens-before race detection over what go-plugin touches while dialling,
+// and each connection reaches its own ID's listener.
+func harnessC07twoDials() {
+	h2p, p2h := make(chan *plugin.ConnInfo, 8), make(chan *plugin.ConnInfo, 8)
+	hs := &gRPCBrokerClientImpl{client: vBrokerClient{h2p, p2h}, send: make(chan *sendErr), recv: make(chan *plugin.ConnInfo), quit: make(chan struct{})}
+	go func() { vDaemon(); hs.StartStream() }()
+	ps := newGRPCBrokerServer()
+	go func() { vDaemon(); ps.StartStream(&vBidi{vStreamBase{vCtx{}}, p2h, h2p}) }()
+	hb := newGRPCBroker(hs, nil, UnixSocketConfig{}, nil, nil2())
+	pb := newGRPCBroker(ps, nil, UnixSocketConfig{}, nil, nil2())
+	go func() { vDaemon(); hb.Run() }()
+	go func() { vDaemon(); vSetProc(1); pb.Run() }()
+	a, c := vNondetU32("a"), vNondetU32("c")
+	vAssume(a != c)
+	vSetProc(1)
+	lnA, e1 := pb.Accept(a)
+	lnC, e2 := pb.Accept(c)
+	vSetProc(0)
+	vAssume(e1 == nil && e2 == nil)
+	vSleepUntil(sec)
+	var cA, cC *grpc.ClientConn
+	var e3, e4 error
+	var nA, nC net.Conn
+	done := make(chan struct{}, 2)
+	go func() {
+		cA, e3 = hb.Dial(a)
+		if e3 == nil {
+			nA, e3 = connG[cA].dialer("", 0)
+		}
+		done <- struct{}{}
+	}()
+	go func() {
+		cC, e4 = hb.Dial(c)
+		if e4 == nil {
+			nC, e4 = connG[cC].dialer("", 0)
+		}
+		done <- struct{}{}
+	}()
+	<-done
+	<-done
+	vAssert(e3 == nil && e4 == nil, "C07: two connections dialled at once both succeed")
+	gotA, _ := lnA.Accept()
+	gotC, _ := lnC.Accept()
+	vAssert(gotA.(*vNetConn) == nA.(*vNetConn).peer, "C07: the connection dialled for ID a is served by the listener accepted for a (two dials at once)")
+	vAssert(gotC.(*vNetConn) == nC.(*vNetConn).peer, "C07: the connection dialled for ID c is served by the listener accepted for c (two dials at once)")
+	vCover("routed")
+	vDone()
+}
+
 type noMux struct{}
 
 func nil2() *noMuxer { return nil }
